@@ -252,6 +252,8 @@ pub fn run_prop(ctx: &Ctx, sink: &mut Sink) {
         // an environment that leaves only a few hundred bytes: the budget is what is left, not a comfortable minimum
         SysCase { fixed: vec![], mb: false, stack: 512 << 10, n: 0, s: 0, envc: 1, envlen: 127_700, groups: vec![(3000, 3)] },
         SysCase { fixed: vec![], mb: false, stack: 512 << 10, n: 0, s: 0, envc: 1, envlen: 125_000, groups: vec![(3000, 4)] },
+        // … or leaves nothing at all (less than the 2048 bytes of headroom): nothing can be passed, which is reported
+        SysCase { fixed: vec![], mb: false, stack: 512 << 10, n: 0, s: 0, envc: 1, envlen: 129_500, groups: vec![(5, 4)] },
         // multi-byte arguments: the budget counts bytes, not characters
         SysCase { fixed: vec![], mb: true, stack: 8 << 20, n: 0, s: 0, envc: 0, envlen: 0, groups: vec![(2500, 2000)] },
         SysCase { fixed: vec![], mb: true, stack: 8 << 20, n: 0, s: 0, envc: 0, envlen: 0, groups: vec![(3, 10), (1, 140_000), (3, 10)] },
